@@ -28,6 +28,19 @@ func main() {
 		gc.Emit(out, res)
 		out.Count("cfg.dupuuid")
 	}
+	// subscriptions whose Subscribe context cannot be cancelled (context.Background()): every delivery still gets a context of its
+	// own that ends after the Ack
+	for i := 0; i < 3; i++ {
+		sc := gc.Scenario{Buf: i % 2, Persistent: i == 1, Blocking: i == 2, Seed: rng.Next(),
+			Subs: []gc.SubSpec{
+				{Topic: 0, Phase: 0, CancelAtRecv: -1, NestedTopic: -1, PlainCtx: true, NackFirst: 1, NackEvery: 2},
+				{Topic: 0, Phase: i % 2, CancelAtRecv: -1, NestedTopic: -1, PlainCtx: true}},
+			Pubs: []gc.PubSpec{{Topic: 0, Calls: 3, Batch: 1}}}
+		out.Begin(sc.Describe())
+		res := gc.Run(sc)
+		gc.Emit(out, res)
+		out.Count("cfg.subscribe_context_without_cancel")
+	}
 	// the earliest subscription of the topic never settles what it gets (and is not cancelled until the others have everything):
 	// the other subscriptions must not wait for it
 	for i := 0; i < 3; i++ {
